@@ -759,19 +759,26 @@ def rule_04_12(rep, fx):
         shown = term_str(v)[:160]
         alts = list(v[1]) if v[0] == 'phi' else [v]
         first = lambda x: x[0] == 'call' and x[1].endswith('first_change_sequence_number')
-        stateful = [a for a in alts if not first(a)]
-        okf = len(alts) == 2 and len(stateful) == 1 and any(first(a) for a in alts)
-        if okf:
-            m = stateful[0]
-            okf = m[0] == 'call' and m[1].rsplit('::', 1)[-1] == 'max' and len(m[2]) == 2 and any(first(x) for x in m[2])
-            if okf:
-                sub = [x for x in m[2] if not first(x)][0]
-                okf = sub[0] == 'call' and sub[1].rsplit('::', 1)[-1] == 'sub' and term_has(sub[2][1], lambda y: y == ('param', 2)) and \
-                    term_has(sub[2][0], lambda y: y[0] == 'call' and y[1].endswith('Iterator::min')) and \
-                    term_has(sub[2][0], lambda y: y[0] == 'call' and y[1].endswith('Iterator::map') and term_has(y, lambda z: z[0] == 'const' and 'acked_up_to_before' in str(z))) and \
-                    not term_has(sub[2][0], lambda y: y[0] == 'call' and y[1].endswith(('Iterator::max', 'Iterator::last', 'Iterator::next')))
-    rep.check(okf, 'R04.12', 'remove_all_acked_changes_but_keep_depth/first-keeper', 'max(min(acked_up_to_before of reliable readers) - depth, first_seq) -> remove_changes_before, on every path',
-              'the first sequence number kept is not max(MIN over reliable readers of acked_up_to_before() - depth, first available) handed to remove_changes_before on every path (%s): '
+        # two arms (stateful / stateless-like); each keeps max(<acknowledged by all> - depth, first available). For the stateless-like writer nobody acknowledges, so
+        # everything written counts as acknowledged: last_seq + 1 (raised F35: that arm kept `first available`, i.e. never removed anything)
+        def keeper(m):
+            if not (m[0] == 'call' and m[1].rsplit('::', 1)[-1] == 'max' and len(m[2]) == 2 and any(first(x) for x in m[2])):
+                return None
+            sub = [x for x in m[2] if not first(x)]
+            if len(sub) != 1 or not (sub[0][0] == 'call' and sub[0][1].rsplit('::', 1)[-1] == 'sub' and term_has(sub[0][2][1], lambda y: y == ('param', 2))):
+                return None
+            x = sub[0][2][0]
+            if term_has(x, lambda y: y[0] == 'call' and y[1].endswith('Iterator::min')) and \
+                    term_has(x, lambda y: y[0] == 'call' and y[1].endswith('Iterator::map') and term_has(y, lambda z: z[0] == 'const' and 'acked_up_to_before' in str(z))) and \
+                    not term_has(x, lambda y: y[0] == 'call' and y[1].endswith(('Iterator::max', 'Iterator::last', 'Iterator::next'))):
+                return 'acked-by-all'
+            if x[0] == 'call' and x[1].endswith('plus_1') and x[2] and x[2][0][0] == 'call' and x[2][0][1].endswith('last_change_sequence_number'):
+                return 'all-written'
+            return None
+        kinds = sorted(str(keeper(a)) for a in alts)
+        okf = kinds == ['acked-by-all', 'all-written']
+    rep.check(okf, 'R04.12', 'remove_all_acked_changes_but_keep_depth/first-keeper', 'max(min(acked_up_to_before of reliable readers) - depth, first_seq) -> remove_changes_before, on every path; stateless-like: max(last_seq + 1 - depth, first_seq)',
+              'the first sequence number kept is not max(MIN over reliable readers of acked_up_to_before() - depth, first available) - for a stateless-like writer max(last written + 1 - depth, first available) - handed to remove_changes_before on every path (%s): '
               'samples a reliable reader has not acknowledged can be dropped, or acknowledged ones are kept beyond the depth' % shown, r.where())
     hb = fx.find('rtps::writer::HistoryBuffer::remove_changes_before')
     rep.analysed(hb)
